@@ -164,6 +164,52 @@ Example in_scope_panic : in_scope cfg0 w_slice (compiled cfg0 w_slice) = true /\
   go cfg0 w_slice 0 [VStr [97; 98]; VInt 1] = EOk (Some (VStr [98])) /\ vm_bytes cfg0 w_slice 0 [VStr [97; 98]; VInt 1] = RDone (mkres (VStr [98]) 0).
 Proof. repeat split; vm_compute; reflexivity. Qed.
 
+(* blank parameters on both stacks and a plain assignment of a tuple to existing variables are inside the guard:
+     func qf0(_ int, p1 string, _ int, _ string) int {
+       v0, v1 := strconv.Atoi(p1); if v1 != nil { v0, v1 = strconv.Atoi(p1 + "7") }; if v1 == nil { return v0 }; return -1 }
+     func qf1(p0 string, _ bool, _ bool) int { return qf0(1, p0, 2, "x") + qf0(3, "4"+p0, 4, "y") }
+   (terms as serialised by harness/cmd/c04 from corpus/C04/15_blank_tuple_assign.go; strconv.Atoi is native 7) *)
+Definition names7 : list string :=
+  ["strings.Replace"; "strings.ReplaceAll"; "strings.TrimPrefix"; "strings.TrimSuffix"; "strings.HasPrefix"; "strings.HasSuffix";
+   "strings.Contains"; "strconv.Atoi"; "strconv.Itoa"; "fmt.Sprintf"]%string.
+Definition cfg7 := the_cfg names7.
+Definition w_blank : program :=
+  [mkfun [(3, TInt); (10, TStr); (3, TInt); (3, TStr)] [TInt]
+     [SAssign ADefine [(11, TInt); (12, TIface)] 1 (ECall (FNative 7 0) TBad None [EIdent 10 TStr]);
+      SIf None (EBinary ONeq TIface (EIdent 12 TIface) (EIdent 0 TBad))
+        [SAssign AAssign [(11, TInt); (12, TIface)] 1 (ECall (FNative 7 0) TBad None [EBinary OAdd TStr (EIdent 10 TStr) (EConst (-1) (CStr [55]))])] None;
+      SIf None (EBinary OEql TIface (EIdent 12 TIface) (EIdent 0 TBad)) [SReturn [EIdent 11 TInt]] None;
+      SReturn [EConst (-1) (CInt (-1))]];
+   mkfun [(13, TStr); (3, TBool); (3, TBool)] [TInt]
+     [SReturn [EBinary OAdd TInt
+                 (ECall (FUser 0 TInt) TInt None [EConst (-1) (CInt 1); EIdent 13 TStr; EConst (-1) (CInt 2); EConst (-1) (CStr [120])])
+                 (ECall (FUser 0 TInt) TInt None [EConst (-1) (CInt 3); EBinary OAdd TStr (EConst (-1) (CStr [52])) (EIdent 13 TStr); EConst (-1) (CInt 4); EConst (-1) (CStr [121])])]]].
+(* an oracle for strconv.Atoi on the strings that occur: "2" -> 2, "42" -> 42, anything else is not a number *)
+Definition atoi_oracle : Z -> list value -> option (list value) := fun id args =>
+  if id =? 7 then
+    match args with
+    | [VStr [50]] => Some [VInt 2; VNil]
+    | [VStr [52; 50]] => Some [VInt 42; VNil]
+    | [VStr _] => Some [VInt 0; VErr [101]]
+    | _ => None
+    end
+  else None.
+Definition vm_bytes7 (p : program) (id : Z) (args : list value) : runres :=
+  let cs := compiled cfg7 p in
+  match nthz cs id with
+  | Some cf => call_fun cfg7 (map (vfunc_bytes cfg7) cs) atoi_oracle 400 (vfunc_bytes cfg7 cf) args
+  | None => ROutOfFuel
+  end.
+Example in_scope_blank_params_tuple_assign :
+  source_guard cfg7 w_blank = true /\
+  (* qf1("2", _, _) = qf0(1, "2", 2, "x") + qf0(3, "42", 4, "y") = 2 + 42 *)
+  call_sem (nat_sig cfg7) atoi_oracle w_blank 50 1 [VStr [50]; VBool true; VBool false] = EOk (Some (VInt 44)) /\
+  vm_bytes7 w_blank 1 [VStr [50]; VBool true; VBool false] = RDone (mkres VNil 44) /\
+  (* qf0(_, "x", _, _): both conversions fail, the plain tuple assignment stores the second error *)
+  call_sem (nat_sig cfg7) atoi_oracle w_blank 50 0 [VInt 9; VStr [120]; VInt 8; VStr []] = EOk (Some (VInt (-1))) /\
+  vm_bytes7 w_blank 0 [VInt 9; VStr [120]; VInt 8; VStr []] = RDone (mkres VNil (-1)).
+Proof. repeat split; vm_compute; reflexivity. Qed.
+
 (* ---- the full statement (no guard) is false of the faithful model: || / && junk under a pending operand ---- *)
 Theorem compile_correct_refuted_logic_junk :
   ~ compile_correct_statement cfg0 (fun _ _ => true).
